@@ -124,9 +124,9 @@ theorem strs_of_tokenizeV (o : FOpts) (b : Bytes) (ts : List Tok) (h : tokenizeV
     · rw [hu] at h1; cases h1
     · simpa using (strictStr_iff raw).mp h1
 
-/-- **Respelling an accepted token list** (no escape option): well nested, accepted under the same validation
+/-- **Respelling an accepted token list** (every option set but PreserveRawStrings with an escape option): well nested, accepted under the same validation
 options, a fixed point of respelling, and every string keeps its text. -/
-theorem respell_tokens (o : FOpts) (hR : o.noEscape) (hd : o.allowDup = true ∨ NameKeyUnquote)
+theorem respell_tokens (o : FOpts) (hR : o.respellable) (hd : o.allowDup = true ∨ NameKeyUnquote)
     (b : Bytes) (ts : List Tok) (h : tokenizeV o b = some ts) :
     WellNested (ts.map (respell o)) ∧ tokensOK o (ts.map (respell o)) = true ∧
     (ts.map (respell o)).map (respell o) = ts.map (respell o) ∧
@@ -134,7 +134,7 @@ theorem respell_tokens (o : FOpts) (hR : o.noEscape) (hd : o.allowDup = true ∨
   obtain ⟨ht, hk⟩ := (tokenizeV_eq_some o b ts).mp h
   have hw := tokenize_sound' b ts ht
   have hstr := strs_of_tokenizeV o b ts h
-  have hspec := fun raw hm => respellStr_spec o hR raw (hstr raw hm)
+  have hspec := fun raw hm => respellStr_spec' o hR raw (hstr raw hm)
   refine ⟨⟨?_, by rw [accepts_respell]; exact hw.2⟩, ?_, ?_, fun raw hm => (hspec raw hm).2.2.1⟩
   · intro k hk'
     obtain ⟨k0, hk0, rfl⟩ := List.mem_map.mp hk'
